@@ -1,5 +1,6 @@
 import Rp2.Props.Tables.Consts
 import Rp2.Proofs.RoundErr
+import Rp2.Proofs.Accuracy
 /-! # C04 — proceeds, cost basis and gain of every fraction are arithmetically exact
 `d*` operations are `rnd 31 ∘ exact` (Python's 31-digit decimal context, validated bit-exactly by the Dec stream). -/
 namespace Rp2.C04
@@ -54,4 +55,19 @@ theorem round_half_even_err (n d : Nat) (hd : 0 < d) :
 /-- tie: 31-digit half-even decimal context with the float trap set, 13-decimal comparisons, `%.11f` cell conversion -/
 theorem decimal_context : Gen.prec = 31 ∧ Gen.rounding = "ROUND_HALF_EVEN" ∧ Gen.floatTrap = true ∧ Gen.cryptoDecimals = 13 ∧ Gen.balanceDecimals = 10 ∧
     Gen.tableEnd = "TABLE END" ∧ Gen.parserFormatSpecs = ["f'.11f'"] := Tables.consts_agree
+/-- one operation of the 31-digit decimal model (Python's context, validated bit-exactly) is within 5·10⁻³¹ relative -/
+theorem decimal_operation_error (x : ℚ) : |rnd 31 x - x| ≤ eps31 * |x| := rnd31_err x
+theorem rounding_to_p_digits (p : Nat) (hp : 1 ≤ p) (x : ℚ) : |rnd p x - x| ≤ |x| / (2 * 10 ^ (p - 1)) := rnd_rel_err p hp x
+/-- proceeds agree with exact rational arithmetic to (2ε+ε²) ≈ 10⁻³⁰ relative -/
+theorem proceeds_agree_with_exact (f : Fraction) (hE : f.ev.amount ≠ 0) :
+    |f.proceeds - f.ev.fiatTaxable * ofUnits f.amt / ofUnits f.ev.amount| ≤
+      (2 * eps31 + eps31 ^ 2) * |f.ev.fiatTaxable * ofUnits f.amt / ofUnits f.ev.amount| := proceeds_accuracy f hE
+theorem cost_agrees_with_exact (f : Fraction) (l : InTx) (hl : f.lot = some l) (hA : l.amount ≠ 0) :
+    |f.cost - l.fiatWithFee * ofUnits f.amt / ofUnits l.amount| ≤
+      (2 * eps31 + eps31 ^ 2) * |l.fiatWithFee * ofUnits f.amt / ofUnits l.amount| := cost_accuracy f l hl hA
+/-- gain agrees with exact proceeds − exact cost, relative to the operands -/
+theorem gain_agrees_with_exact (p c pX cX δ : ℚ) (hδ : 0 ≤ δ) (hp : |p - pX| ≤ δ * |pX|) (hc : |c - cX| ≤ δ * |cX|) :
+    |rnd 31 (p - c) - (pX - cX)| ≤ (δ + eps31 * (1 + δ)) * (|pX| + |cX|) := gain_accuracy p c pX cX δ hδ hp hc
+theorem error_constants : 2 * eps31 + eps31 ^ 2 ≤ 101 / 100 * (1 / 10 ^ 30) ∧
+    (2 * eps31 + eps31 ^ 2) + eps31 * (1 + (2 * eps31 + eps31 ^ 2)) ≤ 151 / 100 * (1 / 10 ^ 30) := constants_small
 end Rp2.C04
